@@ -36,7 +36,7 @@ Next ==
 
 Spec == Init /\ [][Next]_vars
 
-Pair == stage >= 2
+Pair == stage = 2
 Triple == stage = 3
 
 \* ------------------------------------------- declarative counterparts
@@ -165,6 +165,12 @@ CanonicalIsPermitted ==
 ReverseIsExactReverse ==
   Pair => \A attr \in Attrs :
     ArgNameCmpDir(attr, TRUE, a, b, 1, 2) = 0 - ArgNameCmpDir(attr, FALSE, a, b, 1, 2)
+\* the matrix form used on whole lists is the same comparator
+MatrixFormAgrees ==
+  Pair => \A attr \in Attrs :
+    LET M == ArgMatrix(attr, <<a, b>>) IN
+    /\ M[1][2] = ArgNameCmp(attr, a, b, 1, 2) /\ M[2][1] = ArgNameCmp(attr, b, a, 2, 1)
+    /\ M[1][1] = 0 /\ M[2][2] = 0
 \* On this alphabet every permitted set is a singleton except for the
 \* documented open cases.
 OpenCasesOnly ==
@@ -179,9 +185,6 @@ NatTransitive ==
 
 NumCount == Cardinality({i \in 1..3 : IsNumeric(<<a, b, c>>[i])})
 
-TransAt(attr, rev) ==
-  (ArgNameCmpDir(attr, rev, a, b, 1, 2) <= 0 /\ ArgNameCmpDir(attr, rev, b, c, 2, 3) <= 0)
-     => ArgNameCmpDir(attr, rev, a, c, 1, 3) <= 0
 \* positions 1, 2, 3 in every arrangement
 TransAtAllPositions(attr, rev) ==
   \A p \in {<<1, 2, 3>>, <<1, 3, 2>>, <<2, 1, 3>>, <<2, 3, 1>>, <<3, 1, 2>>, <<3, 2, 1>>} :
@@ -190,6 +193,12 @@ TransAtAllPositions(attr, rev) ==
 
 ArgTransitive ==
   (Triple /\ NumCount # 2) => \A attr \in Attrs : \A rev \in BOOLEAN : TransAtAllPositions(attr, rev)
+\* The same theorem without its redundant instances (quick tier): "kind" is
+\* "name" for arguments (KindIsNameForArgs), "location" is the position, and
+\* the reverse direction of (a, b, c) is the forward direction of (c, b, a),
+\* which is another triple of the same domain.
+ArgTransitiveCore ==
+  (Triple /\ NumCount # 2) => TransAtAllPositions("name", FALSE)
 LocationAlwaysTransitive ==
   Triple => \A rev \in BOOLEAN : TransAtAllPositions("location", rev)
 \* expected to FAIL (Names_v_mixed): the documented order on mixed lists
